@@ -13,3 +13,17 @@ Fixpoint time_mismatches_from (i : nat) (cases : list (Z*Z*Z*Z*Z*Z*Z*N*Z)) : lis
   | c :: r => (if time_case c then [] else [i]) ++ time_mismatches_from (S i) r
   end.
 Definition time_mismatches := time_mismatches_from 0.
+
+(** Extended case of [c13-grid]: the grid point and, second component, what the engine did about
+    extra time: (had_book, search_limit, search_extra, hook_limit, hook_extra), see
+    [TimeCtl.extra_case_ok]. *)
+Definition time_case_x (c : (Z*Z*Z*Z*Z*Z*Z*N*Z) * (bool*Z*Z*Z*Z)) : bool :=
+  let '((mt, wt, bt, wi, bi, mtg, ph, stm, obs), (hb, sl, se, hl, he)) := c in
+  time_case_ok mt wt bt wi bi mtg ph stm obs && extra_case_ok mt wt bt stm obs hb sl se hl he.
+
+Fixpoint time_mismatches_x_from (i : nat) (cases : list ((Z*Z*Z*Z*Z*Z*Z*N*Z) * (bool*Z*Z*Z*Z))) : list nat :=
+  match cases with
+  | [] => []
+  | c :: r => (if time_case_x c then [] else [i]) ++ time_mismatches_x_from (S i) r
+  end.
+Definition time_mismatches_x := time_mismatches_x_from 0.
